@@ -443,6 +443,10 @@ pub struct Scenario {
     pub warm: Vec<usize>,
     /// per emitting thread: list of (is_span, callsite index)
     pub emitters: Vec<Vec<(bool, usize)>>,
+    /// the reloading thread is the last one in the default order (so that, by default, the
+    /// emitters' first hits come first and race with each other)
+    #[serde(default)]
+    pub reload_last: bool,
 }
 
 #[derive(Clone, Debug)]
@@ -500,6 +504,9 @@ fn run_scenario(sc: &Scenario, prefix: Vec<u8>, record_steps: bool) -> SResult {
                 m.lock().unwrap().push(Mark { at: stack::flog_len(), what: "emit.end".into(), tid, cs: i });
             }
         }));
+    }
+    if sc.reload_last {
+        bodies.rotate_left(1);
     }
     let trace = sched::run_threads(RunCfg { prefix, horizon: 6000, record_steps }, bodies);
     let mut v = vec![];
@@ -630,6 +637,18 @@ pub fn scenarios(tier: Tier) -> Vec<Scenario> {
                 new: new.clone(),
                 warm: vec![1],
                 emitters: vec![vec![(false, 1)], vec![(false, 4)]],
+                reload_last: false,
+            });
+            // two first hits of different callsites race with each other; the reload comes last by default
+            v.push(Scenario {
+                f17_open: false,
+                name: format!("{:?} {}->{} first-hit event || first-hit event || reload (last)", kind, old.short(), new.short()),
+                kind,
+                old: old.clone(),
+                new: new.clone(),
+                warm: vec![],
+                emitters: vec![vec![(false, 4)], vec![(false, 2)]],
+                reload_last: true,
             });
             if tier == Tier::Thorough || kind != Kind::Global {
                 v.push(Scenario {
@@ -640,6 +659,7 @@ pub fn scenarios(tier: Tier) -> Vec<Scenario> {
                     new: new.clone(),
                     warm: vec![1, 6],
                     emitters: vec![vec![(true, 6)], vec![(false, 1), (false, 1)]],
+                    reload_last: false,
                 });
             }
         }
@@ -741,7 +761,7 @@ pub fn run(args: &Args) -> i32 {
     let mut per = vec![];
     let mut capped = false;
     let start = Instant::now();
-    let budget = Duration::from_secs(args.tier.pick(35, 15 * 60));
+    let budget = Duration::from_secs(args.tier.pick(50, 20 * 60));
     for (idx, sc) in scs.iter().enumerate() {
         let left = budget.saturating_sub(start.elapsed());
         let share = (left / (scs.len() - idx) as u32).max(Duration::from_secs(1));
